@@ -106,7 +106,7 @@ def kinetic_stub(I):
     pass
 
 
-def build(S, tier):
+def build(S, tier, cases=None):
     meta = {"assumptions": [
         "ASE Atoms heap contracts (extend, __delitem__ incl. re-indexing of index-based constraints, __getitem__, set_array in place, set_positions with FixAtoms, set_cell with scale_atoms) as in pyvc/models/atoms_heap.py (TRUSTED)",
         "criteria by contract (C02); operations, integrators, momentum distributions and geometric checks opaque (any result)",
@@ -115,6 +115,9 @@ def build(S, tier):
         "undecided_clauses": []}
 
     for cname, case in CASES.items():
+        if cases is not None and cname not in cases:
+            continue
+
         def run(I, case=case):
             sim, atoms, moves, top = make_sim(I, case)
             run_trials(I, sim, ["m"])                       # an arbitrary first trial
